@@ -18,7 +18,7 @@ import proofs
 from common import hx, unhx
 
 GROUP = "velocity"
-FILES = ["gen/Gen_velocity.v", "gen/Gen_velocity_utils.v", "gen/Gen_pathlines.v", "Model_pathlines.v", "Proofs_velocity.v",
+FILES = ["gen/Gen_velocity.v", "gen/Gen_velocity_utils.v", "gen/Gen_pathlines.v", "Model_pathlines.v", "Proofs_velocity.v", "Inst_velocity.v",
          "Proofs_pathlines.v", "Inst_pathlines.v", "Proofs_pathline_gen.v", "Model_pathline_session.v",
          "Proofs_pathline_session.v", "Entry_velocity.v", "Extract_velocity.v"]
 GEN_MODULES = ("velocity", "pathlines")
@@ -68,7 +68,21 @@ def ordl(s):
 
 def model_line_callable(c):
     kind, flow, hl, vl, ps, t, x = c
+    if flow == 1 and len(ps) == 1:
+        ps = list(ps) + [2.0]          # cell_2d's default edge_length (the generated wrapper is traced WITHOUT the argument)
     return common.model_line(kind, [flow, ordl(hl), ordl(vl)], [0.0 if math.isnan(t) else t] + list(x) + list(ps))
+
+
+def ord6(s):
+    """letter ordinals of the generated wrappers: X Y Z x y z = 0..5, anything else 7"""
+    return "XYZxyz".index(s) if len(s) == 1 and s in "XYZxyz" else 7
+
+
+def gen_line_callable(c):
+    """the same case through the wrapper GENERATED from the source (case of the letters preserved)"""
+    kind, flow, hl, vl, ps, t, x = c
+    return common.model_line("gen_wrap", [0 if kind == "velocity" else 1, flow, ord6(hl), ord6(vl)],
+                             [0.0 if math.isnan(t) else t] + list(x) + list(ps))
 
 
 def scale_of(c):
@@ -79,7 +93,10 @@ def scale_of(c):
     if flow == 0:
         return amp
     if flow == 1:
-        return amp * math.pi / abs(ps[1]) if ps[1] else amp
+        d = ps[1] if len(ps) > 1 else 2.0
+        return amp * math.pi / abs(d) if d else amp
+    if ordl(hl) > 2 or ordl(vl) > 2:
+        return amp
     h, v = x[ordl(hl)], x[ordl(vl)]
     r = math.hypot(h, v)
     return amp / r if r else amp
@@ -123,6 +140,17 @@ def gen_kernel_cases(rng, tier):
         for hl, vl in (("X", "X"), ("Y", "Y"), ("Z", "Z"), ("x", "X")):
             cases.append(("velocity", flow, hl, vl, ps, 0.0, [0.1, 0.2, -0.3]))
     cases.append(("velocity", 1, "X", "Z", [1.0, -2.0], 0.0, [0.1, 0.2, -0.3]))
+    cases.append(("gradient", 1, "X", "X", [1.0, -2.0], 0.0, [0.1, 0.2, -0.3]))     # both checks fail: which one is reported does not matter
+    # letters that are no axis, mixed case, cell_2d with edge_length left at its default (2.0)
+    for hl, vl in (("Q", "Z"), ("X", "q"), ("x", "Z"), ("Z", "y"), ("y", "x")):
+        for flow in range(3):
+            for kind in ("velocity", "gradient"):
+                cases.append((kind, flow, hl, vl, [0.75, 2.0] if flow == 1 else [0.75], 0.0, [0.3, -0.2, -0.4]))
+    for (h, v) in PAIRS:
+        for kind in ("velocity", "gradient"):
+            x = rng.uniform(-1, 1, 3)
+            cases.append((kind, 1, LETTERS[h], LETTERS[v].lower(), [float(rng.uniform(0.1, 3))], float("nan"), [float(a) for a in x]))
+    cases.append(("velocity", 1, "X", "Z", [1.0], 0.0, [1.5, 0.0, 0.0]))               # outside the default cell
     for x in ([1.5, 0.0, 0.0], [0.0, 0.0, -1.0000001], [-1.0000001, 0.0, 0.3], [1.0, 5.0, -1.0]):
         for kind in ("velocity", "gradient"):
             cases.append((kind, 1, "X", "Z", [1.0, 2.0], 0.0, x))
@@ -135,10 +163,15 @@ def gen_kernel_cases(rng, tier):
 def compare_kernels(chk, cases, rtol):
     lines = [model_line_callable(c) for c in cases]
     mres = common.run_model(lines, group=GROUP)
+    gres = common.run_model([gen_line_callable(c) for c in cases], group=GROUP)
     bad = []
     hist = chk.cov.setdefault("histogram", {})
-    for c, m in zip(cases, mres):
+    for c, m, g in zip(cases, mres, gres):
         r = impl_callable(c)
+        # hand-written wrapper model vs wrapper generated from the source: proved equal (Inst_velocity.v); any
+        # difference here is a defect of the extraction / driver / harness
+        if g[0] != m[0] or (g[1] != m[1] and not (g[0] == "OK" and common.vec_close(g[1], m[1], rtol=0.0, atol=0.0)[0])):
+            bad.append((c, f"generated wrapper {g[0]} {g[1] if g[0] == 'ERR' else g[1][:9]} vs wrapper model {m[0]} {m[1] if m[0] == 'ERR' else m[1][:9]}"))
         key = f"{FLOWS[c[1]]}:{c[0]}:{c[2].upper()}{c[3].upper()}"
         hist[key] = hist.get(key, 0) + 1
         flat = r[1] if r[0] == "OK" else []
@@ -1137,11 +1170,29 @@ def build_findings():
     return out
 
 
+def refine_broken(chk, br):
+    """`common.build` extracts the first 12 lines of a coqc error; a unification error of an instance lemma is longer
+    and is then reported as "not built (a dependency failed)".  Recover file / line / proof name from make's output."""
+    import re
+    out = getattr(br, "make_out", "") or ""
+    for b in chk.cov.get("broken_obligations", []):
+        m = re.match(r"proof obligation file (\S+) does not compile", b.get("what", ""))
+        if not m or "dependency failed" not in str(b.get("detail", "")):
+            continue
+        k = out.find(f'File "./{m.group(1)}", line ')
+        if k >= 0:
+            txt = out[k:k + 1200]
+            head = txt.split("\n", 1)[0]
+            err = re.search(r"Error:[^\n]*(?:\n[^\n]*){0,3}", txt)
+            b["detail"] = (head + " | " + (err.group(0) if err else txt[len(head):300])).replace("\n", " ")[:700]
+
+
 def run(chk):
     quiet()
     ok, br = proofs.prove(chk, FILES, PROP, groups=(GROUP,), gen_modules=GEN_MODULES)
     refuted = build_findings()
     chk.cov["findings_refutations_compile"] = refuted
+    refine_broken(chk, br)
     rng = np.random.default_rng(chk.seed)
     chk.cov["trusted_base"] = common.TRUSTED_COMMON + [
         "VelProxy / UtilsProxy in translator/specs_velocity.py: np.full, a statically non-zero np.pi, and the replacement of "
